@@ -335,6 +335,39 @@ def outcomeOf {X : Type} (o : Option (X × Outcome)) : Option Outcome := o.map (
 def countOutcome {X : Type} (w : Outcome) (outs : List (Option (X × Outcome))) : Nat :=
   (outs.filter (fun o => outcomeOf o == some w)).length
 
+/-! ## Interleavings of the two critical sections of `Get`
+
+`Get` takes the mutex twice: once inside `lookup`, once inside `store`; parsing / validation / planning run between them
+without the lock. Concurrent (or re-entrant) `Get`s therefore interleave at the granularity of these two primitives: any
+`store s k r` may arrive when the entry for `k` has meanwhile been written by another `Get` — possibly for ANOTHER schema
+pointer (schema roll-over). `r` is what the storing `Get` computed for (`s`, `k`): `build s k`. -/
+
+inductive Prim (S : Type) where
+  | lookup (s : S) (k : Bytes)
+  | store (s : S) (k : Bytes)
+  | reset
+
+/-- one primitive; `storeF` is the store function (the model's `store`, or a variant for the negative witness) -/
+def stepPrim (storeF : Cache S R → S → Bytes → R → Cache S R) (build : S → Bytes → R) (c : Cache S R) :
+    Prim S → Cache S R × Option (Option R)
+  | .lookup s k => ((lookup c s k).1, some (lookup c s k).2)
+  | .store s k => (storeF c s k (build s k), none)
+  | .reset => (reset c, none)
+
+def runPrim (storeF : Cache S R → S → Bytes → R → Cache S R) (build : S → Bytes → R) :
+    Cache S R → List (Prim S) → Cache S R × List (Option (Option R))
+  | c, [] => (c, [])
+  | c, o :: os =>
+    ((runPrim storeF build (stepPrim storeF build c o).1 os).1,
+      (stepPrim storeF build c o).2 :: (runPrim storeF build (stepPrim storeF build c o).1 os).2)
+
+/-- the variant of `store` that refreshes the result of an entry that is already there WITHOUT re-labelling it with the
+storing request's schema (seeded/C06-7): the slot can then hold a plan built for schema B while labelled schema A -/
+def storeKeepLabel (c : Cache S R) (s : S) (k : Bytes) (r : R) : Cache S R :=
+  match findKey k c.items with
+  | some e => { c with items := ⟨k, e.schema, r⟩ :: removeKey k c.items }
+  | none => { c with items := evictLoop c.cap (c.items.length + 1) (⟨k, s, r⟩ :: c.items) }
+
 end GqlModel.PlanCache
 
 /-! ## The structural fingerprint (`fingerprintDocument`, plan_cache_normalize.go:129-317)
